@@ -1179,6 +1179,59 @@ func wlSetsNoSync(inst int) string {
 	return dig(out...)
 }
 
+// wlHashFuncs: own hash functions of every input family called directly (no table, no lock shared between goroutines),
+// on inputs of very different sizes — empty, a few bytes, just below and above small-buffer thresholds (31, 32, 33, 64 bytes),
+// hundreds of bytes — so that a size-dependent path that falls back to shared package-level scratch state is reached.
+func wlHashFuncs(inst int) string {
+	r := &sm{s: uint64(11000 + inst)}
+	hS := hash.HashFuncForString[string](nil)
+	hSS := hash.HashFuncForStringSlice[[]string](nil)
+	hB := hash.HashFuncForUint8Slice[[]byte](nil)
+	hIS := hash.HashFuncForIntSlice[[]int](nil)
+	hI64S := hash.HashFuncForInt64Slice[[]int64](nil)
+	hFS := hash.HashFuncForFloat64Slice[[]float64](nil)
+	hI, hU, hF := hash.HashFuncForInt[int](nil), hash.HashFuncForUint64[uint64](nil), hash.HashFuncForFloat64[float64](nil)
+	lens := []int{0, 1, 7, 8, 15, 16, 31, 32, 33, 63, 64, 65, 127, 128, 129, 255, 600, 5000}
+	var acc uint64
+	for rep := 0; rep < 6; rep++ {
+		for _, n := range lens {
+			bs := make([]byte, n)
+			is := make([]int, n)
+			i64 := make([]int64, n)
+			fs := make([]float64, n)
+			for i := range bs {
+				bs[i] = byte('a' + r.intn(26))
+				is[i], i64[i], fs[i] = r.intn(1000)+inst, int64(r.intn(1<<30)), float64(r.intn(1000))/7
+			}
+			str := string(bs)
+			acc = acc*31 + hS(str)
+			acc = acc*31 + hSS([]string{str, "x", str + str})
+			acc = acc*31 + hB(bs)
+			acc = acc*31 + hIS(is)
+			acc = acc*31 + hI64S(i64)
+			acc = acc*31 + hFS(fs)
+			acc = acc*31 + hI(n+inst) + hU(uint64(n)) + hF(float64(n)/3)
+		}
+	}
+	// the same long keys through tables of their own
+	eqS, eqI := generic.NewEqualFunc[string](), generic.NewEqualFunc[int]()
+	t1 := symboltable.NewQuadraticHashTable(hash.HashFuncForString[string](nil), eqS, eqI, symboltable.HashOpts{})
+	t2 := symboltable.NewChainHashTable(hash.HashFuncForString[string](nil), eqS, eqI, symboltable.HashOpts{})
+	hits := 0
+	for i := 0; i < 80; i++ {
+		k := strings.Repeat(fmt.Sprintf("k%d-%d/", inst, i), 1+i%12)
+		t1.Put(k, i)
+		t2.Put(k, i)
+		if _, ok := t1.Get(k); ok {
+			hits++
+		}
+		if _, ok := t2.Get(k + "?"); ok {
+			hits++
+		}
+	}
+	return dig(fmt.Sprint(acc, hits, t1.Size(), t2.Size()))
+}
+
 // wlHashTablesNoSync: mutators and point queries only — Put (growth well past the first resizes), Get, Delete (shrinks), Size.
 // No All()/String()/Equal(): those take the package-level shuffle mutex, and a lock that both goroutines happen to pass
 // orders everything before it in one goroutine before everything after it in the other, which hides a race on
@@ -1244,4 +1297,5 @@ var workloads = []workload{
 	{"automata", "own NFA: subset construction, minimisation, dead-state elimination, reindexing, combinators", wlAutomata},
 	{"hashtables-nosync", "grow and shrink own hash tables with Put/Get/Delete only (no call that takes a package-level lock)", wlHashTablesNoSync},
 	{"sets-nosync", "own stable/sorted sets with their whole algebra, unordered sets without All() (no call that takes a package-level lock)", wlSetsNoSync},
+	{"hashfuncs", "own hash functions of every input family called directly on inputs from empty to thousands of bytes; long string keys in own tables", wlHashFuncs},
 }
